@@ -9,6 +9,7 @@ import CM.Model.Merge
 import CM.Model.CheckIds
 import CM.Model.FilterBag
 import CM.Model.GroupBag
+import CM.Model.JoinBag
 open Lean
 namespace CM
 
@@ -22,6 +23,9 @@ partial def edgeKToJson : EdgeK → Json
   | .impure inner => Json.mkObj [("k", .str "impure"), ("inner", edgeKToJson inner)]
   | .byValue inner => Json.mkObj [("k", .str "byvalue"), ("inner", edgeKToJson inner)]
   | .checkIds => Json.mkObj [("k", .str "check_ids")]
+  | .barrier => Json.mkObj [("k", .str "barrier")]
+  | .switchBranch => Json.mkObj [("k", .str "switch_branch")]
+  | .switchMissing i => Json.mkObj [("k", .str "switch_missing"), ("index", toJson i)]
   | _ => Json.mkObj [("k", .str "other")]
 
 def bagToJsonSem (b : Bag) : Json :=
@@ -77,8 +81,17 @@ def opFactory (j : Json) : P Json := do
     pure (match groupByBag prev with
       | .ok b => Json.mkObj [("ok", bagToJsonSem b), ("wf", .bool b.wfB)]
       | .error e => bagErrToJson e)
+  let js ← (← jArr (jFieldD j "joins" (.arr #[]))).mapM fun c => do
+    let l ← bagOfJson (← jField c "left")
+    let r ← bagOfJson (← jField c "right")
+    let on ← jStrs (← jField c "on")
+    let how ← (← jField c "how").getStr?
+    let cached ← (← jField c "cached").getBool?
+    pure (match joinBag l r on how cached with
+      | .ok b => Json.mkObj [("ok", bagToJsonSem b), ("wf", .bool b.wfB)]
+      | .error e => bagErrToJson e)
   pure (Json.mkObj [("outs", .arr outs.toArray), ("caches", .arr cs.toArray), ("merges", .arr ms.toArray),
     ("checkids", .arr ks.toArray), ("filters", .arr fs.toArray),
-    ("groups", .arr gs.toArray)])
+    ("groups", .arr gs.toArray), ("joins", .arr js.toArray)])
 
 end CM
